@@ -25,6 +25,8 @@ CALLS = {
     'trinv2': ("base.trinv2(base.trot2(S['a'], t=[S['x'], S['y']]))", ['a', 'x', 'y']),
     'tr2delta': ("base.tr2delta(base.trotx(S['a'], t=[S['x'], S['y'], S['z']]))", ['a', 'x', 'y', 'z']),
     'tr2jac': ("base.tr2jac(base.trotx(S['a'], t=[S['x'], S['y'], S['z']]))", ['a', 'x', 'y', 'z']),
+    'tr2jac:samebody': ("base.tr2jac(base.trotz(S['a'], t=[S['x'], S['y'], S['z']]), samebody=True)", ['a', 'x', 'y', 'z']),
+    'tr2jac:samebody-pos': ("base.tr2jac(base.troty(S['a'], t=[S['x'], 2, S['z']]), True)", ['a', 'x', 'z']),
     'skew': ("base.skew([S['x'], S['y'], S['z']])", ['x', 'y', 'z']),
     'vex': ("base.vex(base.skew([S['x'], S['y'], S['z']]))", ['x', 'y', 'z']),
     'skewa': ("base.skewa([S['x'], S['y'], S['z'], S['a'], S['b'], S['c']])", ['x', 'y', 'z', 'a', 'b', 'c']),
@@ -62,7 +64,7 @@ CALLS = {
 # documented entries -> the calls that exercise them
 DOCUMENTED = {'rotx': ['rotx', 'rotx:deg'], 'roty': ['roty'], 'rotz': ['rotz'], 'trotx': ['trotx', 'trotx:t'], 'troty': ['troty'], 'trotz': ['trotz'],
               'transl': ['transl', 'transl:vec', 'transl:mixed'], 'eul2r': ['eul2r', 'eul2r:3'], 'eul2tr': ['eul2tr'], 'delta2tr': ['delta2tr'],
-              'trinv': ['trinv'], 'trinv2': ['trinv2'], 'tr2delta': ['tr2delta'], 'tr2jac': ['tr2jac'], 'skew': ['skew'], 'vex': ['vex'],
+              'trinv': ['trinv'], 'trinv2': ['trinv2'], 'tr2delta': ['tr2delta'], 'tr2jac': ['tr2jac', 'tr2jac:samebody', 'tr2jac:samebody-pos'], 'skew': ['skew'], 'vex': ['vex'],
               'skewa': ['skewa'], 'vexa': ['vexa'], 'det': ['det'], 'norm': ['norm'], 'normsq': ['normsq'], 'cross': ['cross'], 'conj': ['conj'],
               'qpow': ['qpow'], 'SO3.__init__': ['SO3.R'], 'SO3.R': ['SO3.R'], 'SE3.__init__': ['SE3()'], 'SE3.t': ['SE3.t'], 'SE3.inv': ['SE3.inv'],
               'SE3.Ad': ['SE3.Ad'], 'SE3.jacob': ['SE3.jacob'], 'SE3.Rx': ['SE3.Rx'], 'SE3.Ry': ['SE3.Ry'], 'SE3.Rz': ['SE3.Rz'],
